@@ -560,11 +560,11 @@ pub fn fam_serial(tier: Tier) -> Vec<Config> {
                 for conc in [Some(1usize), Some(2), Some(3), None] {
                     for layout in ["same", "serial-first", "serial-last"] {
                         for lazy in [false, true] {
-                            for retry in ["none", "now", "delay", "delay2"] {
-                                if retry == "delay2" && nser < 2 {
+                            for retry in ["none", "now", "delay", "delay2", "delayboth"] {
+                                if (retry == "delay2" || retry == "delayboth") && nser < 2 {
                                     continue;
                                 }
-                                if tier == Tier::Quick && nconc == 3 && !(retry == "delay" || retry == "delay2") {
+                                if tier == Tier::Quick && nconc == 3 && !(retry == "delay" || retry == "delay2" || retry == "delayboth") {
                                     continue;
                                 }
                                 if place != "scenario" && layout == "same" {
@@ -578,7 +578,8 @@ pub fn fam_serial(tier: Tier) -> Vec<Config> {
                                 }
                                 match retry {
                                     "now" => ser_tags.push("retry(1)".into()),
-                                    "delay" => ser_tags.push("retry(1).after(5s)".into()),
+                                    // `delayboth`: two serial retries whose delays run out together
+                                    "delay" | "delayboth" => ser_tags.push("retry(1).after(5s)".into()),
                                     _ => {}
                                 }
                                 let ser: Vec<ScenSpec> = (0..nser)
@@ -636,12 +637,12 @@ pub fn fam_serial(tier: Tier) -> Vec<Config> {
                                         cfg.plan
                                             .outcomes
                                             .insert(i.calls[0].key.clone(), vec![Outcome::PanicString, Outcome::Pass]);
-                                        if retry != "delay2" {
+                                        if retry != "delay2" && retry != "delayboth" {
                                             break;
                                         }
                                     }
                                 }
-                                if retry == "delay" || retry == "delay2" {
+                                if retry == "delay" || retry == "delay2" || retry == "delayboth" {
                                     cfg.clock_budget = 1;
                                     cfg.clock_step = d + Duration::from_secs(1);
                                 }
@@ -649,7 +650,7 @@ pub fn fam_serial(tier: Tier) -> Vec<Config> {
                                     + nser
                                     + match retry {
                                         "none" => 0,
-                                        "delay2" => nser,
+                                        "delay2" | "delayboth" => nser,
                                         _ => 1,
                                     }
                                     + if lazy { cfg.feats.len() } else { 0 };
@@ -1557,6 +1558,54 @@ pub fn fam_big(tier: Tier) -> Vec<Config> {
     out
 }
 
+// -------------------------------------------------------------- family order
+
+/// The type-changing builder methods (`which_scenario`, `before`, `after`) in both
+/// orders: whatever was configured before one of them must survive it.
+pub fn fam_order(tier: Tier) -> Vec<Config> {
+    let mut out = Vec::new();
+    for (before, after, custom) in [
+        (true, true, false),
+        (true, false, true),
+        (false, true, true),
+        (true, true, true),
+    ] {
+        for reverse in [false, true] {
+            for conc in [Some(1usize), Some(2)] {
+                let mut cfg = base(String::new());
+                let ser = if custom { "solo" } else { "serial" };
+                cfg.feats = vec![
+                    feat(vec![scen(&[ser, "x"], &[M, M]), scen(&[], &[M])]),
+                    feat(vec![scen(&[], &[M])]),
+                ];
+                cfg.items = vec![Item::Feat(0), Item::Feat(1)];
+                cfg.before = before;
+                cfg.after = after;
+                cfg.custom_which = custom;
+                cfg.reverse_builder = reverse;
+                cfg.conc_builder = Some(conc);
+                cfg.retries_builder = Some(1);
+                cfg.retry_filter_builder = Some("@x".into());
+                cfg.plan.gates = GateMode::Steps;
+                let infos = cfg.scen_infos();
+                // the serial, filtered scenario fails once at its last step
+                cfg.plan.outcomes.insert(infos[0].calls[1].key.clone(), vec![Outcome::PanicString, Outcome::Pass]);
+                cfg.bound = Some(if tier == Tier::Quick { 2 } else { 3 });
+                cfg.max_execs = if tier == Tier::Quick { 2_000 } else { 50_000 };
+                cfg.name = format!(
+                    "order/b{}a{}w{}|rev{}|c{conc:?}",
+                    u8::from(before),
+                    u8::from(after),
+                    u8::from(custom),
+                    u8::from(reverse)
+                );
+                out.push(cfg);
+            }
+        }
+    }
+    out
+}
+
 pub fn family(name: &str, tier: Tier) -> Vec<Config> {
     match name {
         "seq" => fam_seq(tier),
@@ -1573,6 +1622,7 @@ pub fn family(name: &str, tier: Tier) -> Vec<Config> {
         "multi" => fam_multi(tier),
         "dup" => fam_dup(tier),
         "big" => fam_big(tier),
+        "order" => fam_order(tier),
         other => panic!("unknown family {other}"),
     }
 }
@@ -1594,7 +1644,7 @@ pub fn families_for(prop: &str) -> Vec<&'static str> {
         other => panic!("no Engine A families for {other}"),
     };
     let mut v: Vec<&'static str> = own.to_vec();
-    for f in ["seq", "frame", "conc", "serial", "retry", "ff", "panic", "l1", "l1x", "multi", "dup", "big"] {
+    for f in ["seq", "frame", "conc", "serial", "retry", "ff", "panic", "l1", "l1x", "multi", "dup", "big", "order"] {
         if !v.contains(&f) {
             v.push(f);
         }
